@@ -51,18 +51,19 @@ type level struct {
 }
 
 type Solver struct {
-	cmd      *exec.Cmd
-	in       io.WriteCloser
-	out      *bufio.Reader
-	stack    []level
-	defined  map[int]bool
-	declared map[string]bool
-	stats    *Stats
-	log      io.Writer
-	timeout  int // ms, stage 2 (race) time limit
-	quick    int // ms, stage 1 (persistent z3) time limit
-	lastWho  string
-	dead     bool
+	cmd         *exec.Cmd
+	in          io.WriteCloser
+	out         *bufio.Reader
+	stack       []level
+	defined     map[int]bool
+	declared    map[string]bool
+	stats       *Stats
+	log         io.Writer
+	timeout     int // ms, stage 2 (race) time limit
+	quick       int // ms, stage 1 (persistent z3) time limit
+	lastWho     string
+	expectUnsat bool
+	dead        bool
 }
 
 type Stats struct {
@@ -73,6 +74,7 @@ type Stats struct {
 	UnsatN      int
 	UnknownN    int
 	CacheHits   int
+	WitnessHits int
 	Fallbacks   int
 	SolverTime  time.Duration
 	MaxQuery    time.Duration
@@ -216,10 +218,13 @@ func (s *Solver) Check(pc []*Term, extra *Term, wantModel bool) (Res, *Model) {
 	}
 	t0 := time.Now()
 	q, all := fullQueryText(pc, extra, false)
-	s.send(fmt.Sprintf("(reset)\n(set-option :print-success false)\n(set-option :produce-models true)\n(set-option :timeout %d)\n", s.quick))
-	s.send(q)
-	s.send("(echo \"DONE\")\n")
-	lines := s.readUntilMarker()
+	var lines []string
+	if !s.expectUnsat {
+		s.send(fmt.Sprintf("(reset)\n(set-option :print-success false)\n(set-option :produce-models true)\n(set-option :timeout %d)\n", s.quick))
+		s.send(q)
+		s.send("(echo \"DONE\")\n")
+		lines = s.readUntilMarker()
+	}
 	res := Unknown
 	for _, l := range lines {
 		switch {
